@@ -80,7 +80,7 @@ func c03Check(c c03Case) vfResult {
 	}
 	for _, e := range c.Exts {
 		if err := e.apply(); err != nil {
-			return vfResult{Skip: "extend-parent-missing"}
+			return vfApplyFailed(err)
 		}
 		_ = shadow.extend(e)
 	}
